@@ -20,7 +20,7 @@ func init() {
 		ID:    "C15",
 		Run:   runC15,
 		Level: "exploration",
-		Rule: "a run = a generated http/scenario description (1-3 weighted scenarios; per scenario an auth step capturing a token and a trace header, list / order / plain steps with multiplicities name(n), name(n, sleep), sleep(ms), min_waiting_time; URIs, headers and bodies templated from the token, the captured header, a [next] data-source row and a [next] element of a captured JSON array; assert/response on every step) " +
+		Rule: "a run = a generated http/scenario description (1-3 weighted scenarios; per scenario an auth step capturing a token and a trace header, list / order / plain / pick steps (pick renders an element of the captured list into its URI; now and then an order or pick step stands before any list step, so that its preprocessor or its template fails before anything is sent) with multiplicities name(n), name(n, sleep), sleep(ms), min_waiting_time; URIs, headers and bodies templated from the token, the captured header, a [next] data-source row and a [next] element of a captured JSON array; assert/response on every step) " +
 			"read by the real scenario provider, executed by the real http/scenario gun and engine with 1-4 instances against a real net/http server in the bubble whose answers (fresh tokens, item lists) and failures (500 against an assertion, connection closed without response, non-JSON body where a jsonpath is extracted) come from the tape; " +
 			"oracle = interpreter of the abstract description over the target's ordered log grouped by token: order, multiplicities, pauses, rendered values, nothing after the first failing step, one sample per executed step with the documented tag, invocation counts per weight, [next] rows consecutive; non-trivial = at least two instances or a failing step; distinct = distinct schedule-trace hash",
 		Components: map[string]string{
@@ -72,9 +72,11 @@ func c15GenScenario(w *simrt.Stream, i int) c15Scenario {
 	haveList := false
 	nsteps := w.Draw(4)
 	for k := 0; k < nsteps; k++ {
-		kinds := []string{"list", "plain", "order"}
-		kind := kinds[w.Draw(3)]
-		if kind == "order" && !haveList {
+		kinds := []string{"list", "plain", "order", "pick"}
+		kind := kinds[w.Draw(4)]
+		if (kind == "order" || kind == "pick") && !haveList && w.Draw(8) != 0 {
+			// (one time in eight the step stays where it is: its preprocessor / its URI template refers to the list
+			// step's captured items, which do not exist yet - the step fails before anything is sent)
 			kind = "list"
 		}
 		if kind == "list" {
@@ -108,6 +110,7 @@ func c15YAML(scs []c15Scenario, rows int, plainPost bool) (string, string) {
 		if plainPost {
 			b.WriteString("    postprocessors:\n      - type: assert/response\n        status_code: 200\n")
 		}
+		fmt.Fprintf(&b, "  - name: %s_pick\n    method: GET\n    uri: '/%s/pick?t={{.request.%s_auth.postprocessor.token}}&i={{index .request.%s_list.postprocessor.items 0}}'\n    tag: k%d\n", p, p, p, p, i)
 	}
 	b.WriteString("scenarios:\n")
 	for _, sc := range scs {
@@ -137,6 +140,7 @@ func c15HCL(scs []c15Scenario, plainPost bool) string {
 			b.WriteString("  postprocessor \"assert/response\" {\n    status_code = 200\n  }\n")
 		}
 		b.WriteString("}\n")
+		fmt.Fprintf(&b, "request \"%s_pick\" {\n  method = \"GET\"\n  uri    = \"/%s/pick?t={{.request.%s_auth.postprocessor.token}}&i={{index .request.%s_list.postprocessor.items 0}}\"\n  tag    = \"k%d\"\n  headers = {}\n}\n", p, p, p, p, i)
 	}
 	for _, sc := range scs {
 		fmt.Fprintf(&b, "scenario \"%s\" {\n  weight           = %d\n  min_waiting_time = %d\n  requests         = [\n", sc.Name, sc.Weight, sc.MWT.Milliseconds())
@@ -254,7 +258,7 @@ func runC15(r *R) {
 			switch fk {
 			case "status-500":
 				rs.Status = 500
-				if kind == "plain" && !plainPost {
+				if (kind == "plain" && !plainPost) || kind == "pick" {
 					delete(faulted, n) // nothing asserts on this step: a 500 is a reported status, not a failed step
 				}
 			case "abort":
@@ -265,7 +269,7 @@ func runC15(r *R) {
 					// without a response: not a failed step. A GET step is failed with a 500 instead.
 					faulted[n] = "status-500"
 					rs.Status = 500
-					if kind == "plain" && !plainPost {
+					if (kind == "plain" && !plainPost) || kind == "pick" {
 						delete(faulted, n)
 					}
 				}
@@ -371,8 +375,25 @@ func runC15(r *R) {
 			}
 		}
 		wantN := len(sc.Steps)
-		if failIdx >= 0 {
+		// a step that needs the list step's captured items before any list step ran fails on its own (order: the
+		// preprocessor finds no such variable; pick: the URI template cannot be rendered): nothing is sent for it
+		staticFail := -1
+		for j, st := range sc.Steps {
+			if st.Kind == "list" {
+				break
+			}
+			if st.Kind == "order" || st.Kind == "pick" {
+				staticFail = j
+				break
+			}
+		}
+		if staticFail >= 0 {
+			wantN = staticFail
+		}
+		if failIdx >= 0 && (staticFail < 0 || failIdx < staticFail) {
 			wantN = failIdx + 1
+		} else if staticFail >= 0 {
+			failIdx = -1 // (only wrong code gets this far: the answer to a request that should not have been sent)
 		}
 		var wantKinds []string
 		for _, st := range sc.Steps[:min(wantN, len(sc.Steps))] {
@@ -380,12 +401,15 @@ func runC15(r *R) {
 		}
 		if strings.Join(in.kinds, ",") != strings.Join(wantKinds, ",") {
 			cls := "order-or-multiplicity"
-			if failIdx >= 0 && len(in.kinds) > wantN {
+			if (failIdx >= 0 || staticFail >= 0) && len(in.kinds) > wantN {
 				cls = "continued-after-failed-step"
 			} else if failIdx < 0 && len(in.kinds) < len(wantKinds) {
 				cls = "stopped-early"
 			}
 			fk := ""
+			if failIdx < 0 && staticFail >= 0 {
+				fk = fmt.Sprintf(" (step %d, %s, cannot be rendered: no list step ran before it)", staticFail, sc.Steps[staticFail].Kind)
+			}
 			if failIdx >= 0 {
 				fk = fmt.Sprintf(" (step %d, %s, was answered with fault %s)", failIdx, in.kinds[failIdx], faulted[in.reqs[failIdx].N])
 			}
@@ -399,6 +423,10 @@ func runC15(r *R) {
 			} else {
 				executed[name]++
 			}
+		}
+		if failIdx < 0 && staticFail >= 0 {
+			failedSteps[fmt.Sprintf("%s.s%d_%s", sc.Name, in.sc, sc.Steps[staticFail].Kind)]++
+			r.Note("step-failed-before-sending:" + sc.Steps[staticFail].Kind)
 		}
 		// pauses and rendered values
 		for j, rq := range in.reqs {
@@ -438,6 +466,12 @@ func runC15(r *R) {
 			switch in.kinds[j] {
 			case "list":
 				cur = listItems[rq.N]
+			case "pick":
+				u, _ := url.Parse(rq.URI)
+				if got := u.Query().Get("i"); len(cur) == 0 || got != fmt.Sprint(cur[0]) {
+					r.Fail("variable-flow/uri", "%s arrived with i=%q, want the first element of the latest list response of this invocation %v", rq.URI, got, cur)
+					return
+				}
 			case "order":
 				var body struct {
 					Item *float64 `json:"item"`
